@@ -82,3 +82,97 @@ def u_l_round(ctx):
               [xl <= xu, z3.ToReal(xl) <= y, y <= z3.ToReal(xu), z3.ToReal(r) - y <= z3.RealVal("1/2"), y - z3.ToReal(r) <= z3.RealVal("1/2")],
               z3.And(xl <= r, r <= xu))
     ctx.assume_note("bounds representable exactly in binary64 (|x| < 2^53); beyond that see known finding C06-F49")
+
+
+HC = "pybrops/opt/algo/SteepestDescentSubsetHillClimber.py"
+
+
+@unit(P, "B[steepest-descent subset hill-climber: stops only where no single exchange improves (cv, then score); truthful values]", "B",
+      bounded=True, targets=[HC + ":SteepestDescentSubsetHillClimber.minimize"],
+      note="bounded(shape): candidate sets of <= 4 labels (thorough 5), every subset size, every starting subset; the objective value "
+           "and the constraint violation of EVERY subset are independent symbolic reals (arbitrary, non-separable problems, ties included)")
+def u_b_hillclimb(ctx):
+    import time
+    t_unit = time.time()
+    sols = []
+
+    class Soln:
+        def __init__(self, **kw):
+            self.kw = kw
+            sols.append(self)
+    f = loopcut.Extracted(HC + ":SteepestDescentSubsetHillClimber.minimize", overrides={
+        "check_is_SubsetProblem": lambda *a: None, "check_SubsetProblem_is_single_objective": lambda *a: None,
+        "SubsetSolution": Soln})
+
+    def body(e, shape, tag):
+        n, k, start, constrained = shape
+        labels = numpy.array([10 + 3 * i for i in range(n)])
+        subsets = list(itertools.combinations([int(l) for l in labels], k))
+        val = {s: sym.fresh_real("f_" + "_".join(map(str, s))) for s in subsets}
+        cv = {s: (sym.fresh_real("cv_" + "_".join(map(str, s))) if constrained else 0.0) for s in subsets}
+        if constrained:
+            for s in subsets:
+                e.assume(cv[s].t >= 0)
+        calls = []
+
+        class Prob:
+            decn_space = labels.copy()
+            ndecn = k
+            decn_space_lower = None
+            decn_space_upper = None
+            nobj, obj_wt, nineqcv, ineqcv_wt, neqcv, eqcv_wt = 1, numpy.array([1.0]), 1, numpy.array([1.0]), 0, numpy.array([])
+
+            def evalfn(self, x, *a, **kw):
+                key = tuple(sorted(int(v) for v in x))
+                calls.append(key)
+                if time.time() - t_unit > (150 if ctx.tier == "quick" else 900):
+                    raise sym.Unsupported("hill-climber unit exceeded its time budget (path explosion on this source)")
+                if len(calls) > (len(subsets) + 2) * (k * (n - k) + 1) + 2:
+                    # every accepted exchange strictly improves (cv, score), so a descent visits each subset at most once
+                    raise RuntimeError("hill-climber did not stop within %d evaluations (each subset can be accepted at most once)" % len(calls))
+                return (barr.mk(numpy.array([val[key]], dtype=object), "float64"),
+                        barr.mk(numpy.array([cv[key]], dtype=object), "float64"), numpy.zeros(0))
+
+        class Rng:
+            def choice(self, a, size=None, replace=True, p=None):
+                return numpy.array(start)
+
+        class Me:
+            rng = Rng()
+        prob = Prob()
+        del sols[:]
+        misc = {}
+        out = f(Me(), prob, misc)
+        kw = out.kw
+        decn = [int(v) for v in numpy.asarray(kw["soln_decn"]).reshape(-1)]
+        key = tuple(sorted(decn))
+        e.prove(tag + ":one-solution-of-requested-size", len(decn) == k and kw["nsoln"] == 1)
+        e.prove(tag + ":distinct-members-of-the-candidate-set", len(set(decn)) == k and all(v in [int(l) for l in labels] for v in decn))
+        e.prove(tag + ":reported-objective-and-violation-equal-fresh-evaluation",
+                z3.And(R(numpy.asarray(kw["soln_obj"]).reshape(-1)[0]) == R(val[key]),
+                       R(numpy.asarray(kw["soln_ineqcv"]).reshape(-1)[0]) == R(cv[key])))
+        rest = [int(l) for l in labels if int(l) not in decn]
+        better = []
+        for a_ in decn:
+            for b_ in rest:
+                nb = tuple(sorted([v for v in decn if v != a_] + [b_]))
+                better.append(z3.Or(R(cv[nb]) < R(cv[key]), z3.And(R(cv[nb]) == R(cv[key]), R(val[nb]) < R(val[key]))))
+        e.prove(tag + ":no-single-exchange-improves-the-returned-decision", z3.Not(z3.Or(*better)) if better else True)
+        e.prove(tag + ":never-worse-than-the-start", z3.Or(R(cv[key]) < R(cv[tuple(sorted(start))]),
+                                                            z3.And(R(cv[key]) == R(cv[tuple(sorted(start))]), R(val[key]) <= R(val[tuple(sorted(start))]))))
+        e.prove(tag + ":problem-not-modified", numpy.array_equal(prob.decn_space, labels) and prob.ndecn == k)
+        e.prove(tag + ":miscout-scores", R(misc["gbest_score"]) == R(val[key]) and True)
+        return "ok"
+    shapes = []
+    nmax = 4 if ctx.tier == "quick" else 5
+    for n in range(1, nmax + 1):
+        for k in range(1, n + 1):
+            labs = [10 + 3 * i for i in range(n)]
+            starts = list(itertools.combinations(labs, k))
+            if ctx.tier == "quick" or n >= 5:
+                starts = starts[:1] + starts[-1:] if len(starts) > 1 else starts
+            for st in starts:
+                shapes.append((n, k, tuple(reversed(st)), False))
+            if n <= 3 or (ctx.tier == "thorough" and n <= 4):
+                shapes.append((n, k, tuple(starts[0]), True))
+    modeb.run_shapes(ctx, "hillclimb", shapes, body, max_paths=20000)
